@@ -239,24 +239,38 @@ class MEIExporter:
         return measure_el
 
     def _handle_gap(self, start, end, xml_voice_el):
-        """Fill the time from start to end (in divs) with space elements."""
+        """Fill the time from start to end (in divs) with space elements
+        (plain values, or triplet values inside a tuplet element)."""
         remaining = int(end - start)
-        dur = 1
-        while remaining > 0 and dur <= 256:
-            value = self.qdivs * 4 / dur
-            if value == int(value) and remaining >= value:
-                space_el = etree.SubElement(xml_voice_el, "space")
-                space_el.set(XMLNS_ID, "space-" + self.elc_id())
-                space_el.set("dur", str(dur))
-                remaining -= int(value)
-            else:
-                dur *= 2
-        if remaining > 0:
-            warnings.warn(
-                "A gap of {} divs in a voice cannot be written as spaces.".format(
-                    remaining
+        while remaining > 0:
+            # the longest plain or triplet value that fits: (divs, dur, triplet)
+            candidates = [
+                (int(v), dur, triplet)
+                for dur in (1, 2, 4, 8, 16, 32, 64, 128, 256)
+                for v, triplet in (
+                    (self.qdivs * 4 / dur, False),
+                    (self.qdivs * 8 / (3 * dur), True),
                 )
-            )
+                if v == int(v) and 0 < v <= remaining
+            ]
+            if not candidates:
+                warnings.warn(
+                    "A gap of {} divs in a voice cannot be written as spaces.".format(
+                        remaining
+                    )
+                )
+                return
+            value, dur, triplet = max(candidates, key=lambda c: (c[0], not c[2]))
+            parent_el = xml_voice_el
+            if triplet:
+                parent_el = etree.SubElement(xml_voice_el, "tuplet")
+                parent_el.set(XMLNS_ID, "tuplet-" + self.elc_id())
+                parent_el.set("num", "3")
+                parent_el.set("numbase", "2")
+            space_el = etree.SubElement(parent_el, "space")
+            space_el.set(XMLNS_ID, "space-" + self.elc_id())
+            space_el.set("dur", str(dur))
+            remaining -= value
 
     def _handle_chord(self, chord, xml_voice_el):
         chord_el = etree.SubElement(xml_voice_el, "chord")
